@@ -203,6 +203,8 @@ impl Buffer {
 
         // If there is no space even for entry header, skip
         if buf.len() < EntryHeader::serialized_len() {
+            #[cfg(foyer_verif)]
+            foyer_common::verif::event("shed", hash, 1);
             return false;
         }
 
@@ -215,6 +217,12 @@ impl Buffer {
                 if e.kind() != ErrorKind::BufferSizeLimit {
                     tracing::warn!(?e, "[blob writer]: serialize entry kv error");
                 }
+                #[cfg(foyer_verif)]
+                foyer_common::verif::event(
+                    "shed",
+                    hash,
+                    if e.kind() == ErrorKind::BufferSizeLimit { 2 } else { 4 },
+                );
                 return false;
             }
         };
@@ -240,6 +248,8 @@ impl Buffer {
         let aligned = bits::align_up(PAGE, len);
 
         if aligned > self.max_entry_size {
+            #[cfg(foyer_verif)]
+            foyer_common::verif::event("shed", hash, 3);
             return false;
         }
 
@@ -268,6 +278,8 @@ impl Buffer {
         let aligned = bits::align_up(PAGE, slice.len());
 
         if aligned > self.max_entry_size || aligned > buf.len() {
+            #[cfg(foyer_verif)]
+            foyer_common::verif::event("shed_reinsertion", hash, sequence);
             return false;
         }
 
